@@ -3,7 +3,9 @@ package sim
 import (
 	"fmt"
 	"net"
+	"os"
 	"reflect"
+	"sync/atomic"
 	"testing"
 	"time"
 
@@ -30,10 +32,20 @@ type streamNode struct {
 	lastVer  map[string]uint64
 }
 
-func listenBoth() (net.Listener, net.PacketConn, error) {
+// Every case gets its own loopback address (all of 127/8 is local): thousands of
+// cases per process would otherwise exhaust the ephemeral ports of 127.0.0.1
+// (every join and leave is a TCP connection that lingers in TIME_WAIT).
+var streamCase atomic.Int64
+
+func streamIP() string {
+	n := int(streamCase.Add(1))
+	return fmt.Sprintf("127.%d.%d.%d", 16+os.Getpid()%224, (n/254)%256, 1+n%254)
+}
+
+func listenBoth(ip string) (net.Listener, net.PacketConn, error) {
 	var lastErr error
 	for try := 0; try < 50; try++ {
-		tcp, err := net.Listen("tcp", "127.0.0.1:0")
+		tcp, err := net.Listen("tcp", ip+":0")
 		if err != nil {
 			lastErr = err
 			continue
@@ -154,8 +166,9 @@ func runStream(t *testing.T, prop string) {
 				}
 			}
 		}()
+		ip := streamIP()
 		for i := 0; i < N; i++ {
-			tcp, udp, err := listenBoth()
+			tcp, udp, err := listenBoth(ip)
 			if err != nil {
 				c.Harnessf("listen: %v", err)
 			}
